@@ -241,10 +241,17 @@ func equal(lhsV, rhsV reflect.Value) bool {
 	if (!lhsIsNil && rhsIsNil) || (lhsIsNil && !rhsIsNil) {
 		return false
 	}
-	if lhsV.Kind() == reflect.Interface || lhsV.Kind() == reflect.Ptr {
+	// look through an interface box and then through a pointer, on either side
+	if lhsV.Kind() == reflect.Interface {
 		lhsV = lhsV.Elem()
 	}
-	if rhsV.Kind() == reflect.Interface || rhsV.Kind() == reflect.Ptr {
+	if lhsV.Kind() == reflect.Ptr && !lhsV.IsNil() {
+		lhsV = lhsV.Elem()
+	}
+	if rhsV.Kind() == reflect.Interface {
+		rhsV = rhsV.Elem()
+	}
+	if rhsV.Kind() == reflect.Ptr && !rhsV.IsNil() {
 		rhsV = rhsV.Elem()
 	}
 
